@@ -22,6 +22,8 @@ Lemma call_skeletons :
     ["update_chunk_indices_seek(access_rec->posn, info->ndims, info->nt_size, info->seek_chunk_indices, info->seek_pos_chunk, info->ddims)"%string;
      "calculate_chunk_num(&chunk_num, info->ndims, info->seek_chunk_indices, info->ddims)"%string;
      "calculate_chunk_for_chunk(&chunk_size, info->ndims, info->nt_size, write_len, bytes_written, info->seek_chunk_indices, info->seek_pos_chunk, info->ddims)"%string;
+     "tbbtdfind(info->chk_tree, &chunk_num, ((void *)0))"%string;
+     "tbbtdins(info->chk_tree, chkptr, chk_key)"%string;
      "mcache_get(info->chk_cache, chunk_num + 1, 0)"%string;
      "calculate_seek_in_chunk(&write_seek, info->ndims, info->nt_size, info->seek_pos_chunk, info->ddims)"%string;
      "memcpy(chk_dptr, bptr, (size_t)chunk_size)"%string;
@@ -37,6 +39,8 @@ Lemma call_skeletons :
      "compute_array_to_seek(&relative_posn, info->seek_user_indices, info->nt_size, info->ndims, info->ddims)"%string] /\
   HMCwriteChunk_q_calls =
     ["calculate_chunk_num(&chunk_num, info->ndims, origin, info->ddims)"%string;
+     "tbbtdfind(info->chk_tree, &chunk_num, ((void *)0))"%string;
+     "tbbtdins(info->chk_tree, chkptr, chk_key)"%string;
      "mcache_get(info->chk_cache, chunk_num + 1, 0)"%string;
      "memcpy(chk_dptr, bptr, (size_t)write_len)"%string;
      "mcache_put(info->chk_cache, chk_data, 0x01)"%string;
